@@ -402,6 +402,12 @@ def standard_proof_phase(rep, modules, directed_search=None):
         rep.discharged = len(ok)
         if bad or problems:
             broken = {"broken": "axiom/forbidden-token audit", "forbidden": bad[:10], "axiom_problems": problems[:10]}
+        elif rep.tier == "thorough":
+            # second opinion: the toolchain's independent re-checker replays the compiled declarations of the property modules
+            p = subprocess.run(["lake", "env", "leanchecker"] + modules, cwd=LEAN, stdout=subprocess.PIPE, stderr=subprocess.STDOUT, text=True)
+            rep.extra["leanchecker"] = {"modules": modules, "exit": p.returncode}
+            if p.returncode != 0:
+                broken = {"broken": "leanchecker rejects the compiled property modules", "output": p.stdout[-3000:]}
     if broken:
         rep.violation(broken, no_input=True)
         if directed_search:
